@@ -216,9 +216,10 @@ def handleAvro (toks : List String) : Option String :=
               | none => false
           if chk bl bytes then toHex bytes else "MODEL-SPEC-MISMATCH ocf")
     | _, _ => some "bad-op"
-  | ["ocfz", _codec, sch, rows] =>
-    match (schemaOf sch).bind fieldsOf, rowsOf rows with
-    | some fs, some rs =>
+  | ["ocfz", _codec, sch, batches] =>
+    match (schemaOf sch).bind fieldsOf, (batches.splitOn "/").mapM rowsOf with
+    | some fs, some bs =>
+      let rs := bs.flatten
       some (match avroRows fs rs with | .ok _ => s!"rows={rs.length}" | .error e => e)
     | _, _ => some "bad-op"
   | ["dec", sch, hex] =>
@@ -231,8 +232,59 @@ def handleAvro (toks : List String) : Option String :=
     | _, _ => some "bad-op"
   | _ => none
 
-/-- JSON / CSV ops -/
-def Text.handleText (_toks : List String) : Option String := none
+/-! ### text formats
+
+  C17 csv <delim> <records>       records `rec|rec|…`, rec = comma-separated hex fields (`-` = empty field)
+                                  → hex of the written lines (model writer; model reader must split them back)
+  C17 csvsplit <delim> <hex>      arbitrary input bytes → the records the reader model splits them into
+  C17 jsonstr <hex>               UTF-8 string → hex of the quoted, escaped JSON token
+  C17 jsonunesc <hex>             a JSON string token → hex of the decoded string, or ERR:parse
+  C17 jsonrt / csvrt …            whole-batch round trips checked in the harness (answer echoes the row count)
+-/
+def parseRecords (s : String) : Option (List (List (List Nat))) :=
+  (s.splitOn "|").mapM (fun r => (r.splitOn ",").mapM parseHex)
+
+def showRecords (recs : List (List (List Nat))) : String :=
+  if recs.isEmpty then "-" else "|".intercalate (recs.map (fun r => ",".intercalate (r.map toHex)))
+
+def Text.handleText (toks : List String) : Option String :=
+  match toks with
+  | ["csv", d, recs] =>
+    match d.toNat?, parseRecords recs with
+    | some d, some rs =>
+      let q := 34
+      let out := Csv.writeRecords d q rs
+      -- specification of the quoting rule (RFC 4180) next to the model of csv-core
+      let specOk := rs.all (fun r => r.all (fun f =>
+        Csv.writeField d q f = (if Spec.csvNeedsQuote d q f then Spec.csvQuote q f else f)))
+      if !specOk then some "MODEL-SPEC-MISMATCH csv quoting"
+      else if Csv.readRecords d q out != rs then
+        some s!"MODEL-SPEC-MISMATCH csv split={showRecords (Csv.readRecords d q out)}"
+      else some (toHex out)
+    | _, _ => some "bad-op"
+  | ["csvsplit", d, hex] =>
+    match d.toNat?, parseHex hex with
+    | some d, some bytes => some (showRecords (Csv.readRecords d 34 bytes))
+    | _, _ => some "bad-op"
+  | ["jsonstr", hex] =>
+    match parseHex hex with
+    | some s =>
+      let enc := Json.encodeString s
+      match Json.decodeString (enc ++ [0x2C]) with
+      | some (back, [0x2C]) => if back = s then some (toHex enc) else some s!"MODEL-SPEC-MISMATCH json back={toHex back}"
+      | _ => some "MODEL-SPEC-MISMATCH json decode=none"
+    | none => some "bad-op"
+  | ["jsonunesc", hex] =>
+    match parseHex hex with
+    | some tok =>
+      match Json.decodeString tok with
+      | some (s, []) => some (toHex s)
+      | some (_, _) => some "ERR:trailing"
+      | none => some "ERR:parse"
+    | none => some "bad-op"
+  | ["jsonrt", _opts, _schema, n, _rows] => some s!"rows={n}"
+  | ["csvrt", _opts, _schema, n, _rows] => some s!"rows={n}"
+  | _ => none
 
 def handle (toks : List String) : String :=
   match handleAvro toks with
